@@ -117,6 +117,44 @@ S('silent-ipv4-filter-helper', ['C11'], I4,
         let for_us = self.has_ip_addr(dst) || self.has_multicast_group(dst) || self.is_broadcast_v4(dst);
         if !for_us {""", 'destination filter computed into a local bool first')
 
+W = 'src/wire/'
+V('c07-ipv4-checklen-total-len', 'C07', W + 'ipv4.rs',
+  """        } else if len < self.total_len() as usize {
+            Err(Error)
+        } else if self.header_len() < MINIMUM_IHL_BYTES {""",
+  """        } else if self.header_len() < MINIMUM_IHL_BYTES {""", 'R07.1')
+V('c07-udp-field-beyond-header', 'C07', W + 'udp.rs',
+  """    pub fn checksum(&self) -> u16 {
+        let data = self.buffer.as_ref();
+        NetworkEndian::read_u16(&data[field::CHECKSUM])""",
+  """    pub fn checksum(&self) -> u16 {
+        let data = self.buffer.as_ref();
+        NetworkEndian::read_u16(&data[field::CHECKSUM.start + 2..field::CHECKSUM.end + 2])""", 'R07.1')
+V('c07-nhc-exthdr-length-unchecked', 'C07', W + 'sixlowpan/nhc.rs',
+  """        // The length field is now readable; the payload it announces must be present too.
+        len += self.length() as usize;
+""",
+  """""", 'R07.1')
+V('c07-dns-pointer-no-shrink', 'C07', W + 'dns.rs',
+  """                        bytes = &packet[ptr..];
+                        packet = &packet[..ptr];""",
+  """                        bytes = &packet[ptr..];""", 'R07.5')
+V('c07-dhcp-options-pad-no-advance', 'C07', W + 'dhcpv4.rs',
+  """                    Some(field::OPT_PAD) => buf = &buf[1..],""",
+  """                    Some(field::OPT_PAD) => buf = &buf[0..],""", 'R07.5')
+V('c07-sack-modulus', 'C07', W + 'tcp.rs',
+  """                        if n < 10 || (n - 2) % 8 != 0 {""",
+  """                        if n < 10 || (n - 2) % 4 != 0 {""", 'R07.7')
+V('c07-ndisc-zero-len-option', 'C07', W + 'ndisc.rs',
+  """            if len == 0 {
+                return Err(Error);
+            }
+            offset += len;""",
+  """            offset += len;""", 'R07.5')
+S('silent-udp-checklen-reorder', ['C07'], W + 'udp.rs',
+  """            if buffer_len < field_len || field_len < HEADER_LEN {""",
+  """            if field_len < HEADER_LEN || buffer_len < field_len {""", 'reordered disjuncts')
+
 S('silent-tcp-rename-local', ['C17'], T,
   """        let mut ack_of_fin = false;""",
   """        let mut ack_of_fin = false; let _unused_marker = 0u8;""", 'adds an unused local')
